@@ -38,10 +38,12 @@ def build_target(tid: str):
             lib = c02.make_lib(light=True)
             return pyrun.module_for(c02.build(d, lib), axioms=lib.get_axioms(), notations=lib.get_notations())
         return fac
-    if kind in ('mm', 'mmgen'):
+    if kind in ('mm', 'mmgen', 'mmvars'):
         from . import c16, mmgen, mmref
         if kind == 'mm':
             text = (common.REPO / 'generation' / 'mm-benchmarks' / rest).read_text()
+        elif kind == 'mmvars':
+            text = VARDB.replace('AXIOMS', VAR_AXIOMS[rest])
         else:
             fi, ti, layout = rest.split(';')
             fk = c16.feature_vectors(False)[int(fi)]
@@ -51,6 +53,38 @@ def build_target(tid: str):
             text = mmref.write_db(mmgen.database_with_goal(ft, t, tree, layout))
         return lambda: translation_module(text)
     raise ValueError(tid)
+
+
+VARDB = r"""
+$c #Pattern #Variable #ElementVariable #SetVariable |- \imp ( ) $.
+$v ph0 ph1 ph2 xX yY zZ eE sS $.
+ph0-is-pattern $f #Pattern ph0 $.
+ph1-is-pattern $f #Pattern ph1 $.
+ph2-is-pattern $f #Pattern ph2 $.
+zZ-is-var $f #Variable zZ $.
+xX-is-var $f #Variable xX $.
+yY-is-var $f #Variable yY $.
+eE-is-evar $f #ElementVariable eE $.
+sS-is-svar $f #SetVariable sS $.
+var-is-pattern $a #Pattern xX $.
+imp-is-pattern $a #Pattern ( \imp ph0 ph1 ) $.
+proof-rule-prop-1 $a |- ( \imp ph0 ( \imp ph1 ph0 ) ) $.
+proof-rule-prop-2 $a |- ( \imp ( \imp ph0 ( \imp ph1 ph2 ) ) ( \imp ( \imp ph0 ph1 ) ( \imp ph0 ph2 ) ) ) $.
+${
+    proof-rule-mp.0 $e |- ( \imp ph0 ph1 ) $.
+    proof-rule-mp.1 $e |- ph0 $.
+    proof-rule-mp   $a |- ph1 $.
+$}
+AXIOMS
+goal $p |- ( \imp ph0 ph0 ) $=
+  ( imp-is-pattern proof-rule-prop-2 proof-rule-prop-1 proof-rule-mp ) AAABZBZF
+  AFABBGFBAFACAFDEAADE $.
+"""
+VAR_AXIOMS = {
+    'two': r'ax-two $a |- ( \imp xX ( \imp yY xX ) ) $.',
+    'three': r'ax-three $a |- ( \imp zZ ( \imp yY ( \imp xX zZ ) ) ) $.',
+    'mixed': r'ax-mixed $a |- ( \imp eE ( \imp yY ( \imp sS xX ) ) ) $.' + '\n' + r'ax-two $a |- ( \imp yY ( \imp xX yY ) ) $.',
+}
 
 
 def translation_module(text):
@@ -128,7 +162,7 @@ def targets(thorough):
     ex = c02.successors(prim[:3], prim[:3], 4, 2)
     for d in ex[::max(1, len(ex) // (10 if thorough else 4))]:
         T.append('expr:' + json.dumps(d))
-    T += ['mm:impreflex-compressed-goal.mm', 'mm:transfer-task-specific.mm']
+    T += ['mm:impreflex-compressed-goal.mm', 'mm:transfer-task-specific.mm', 'mmvars:two', 'mmvars:three', 'mmvars:mixed']
     _, _, thms = mmgen.derivations(mmgen.Features(), 2, 4)
     two_var = [i for i, (t, _, h) in enumerate(thms) if len(__import__('mc.mmref', fromlist=['x']).term_vars(t)) >= 2]
     for i in (two_var[:: max(1, len(two_var) // (6 if thorough else 3))]):
